@@ -480,13 +480,13 @@ func Solve(frs []*FuncResult, dir string, timeoutS int, keepDir string) {
 				openHere++
 			}
 		}
-		if openHere == 0 || openHere > 12 || os.Getenv("GOVC_NOBATCH") != "" {
+		if openHere == 0 || openHere > 4 || os.Getenv("GOVC_NOBATCH") != "" {
 			continue
 		}
 		wg4.Add(1)
 		go func(fr *FuncResult) {
 			defer wg4.Done()
-			batchFirst(fr, dir, 30000)
+			batchFirst(fr, dir, 15000)
 		}(fr)
 	}
 	wg4.Wait()
